@@ -262,42 +262,53 @@ def main():
         print(str(e))
         obligations_broken.append(("extraction", str(e)[-800:]))
     ok_drv, out_drv = C.lake(["driver-" + P.COMPONENT])
-    if not ok_drv:
-        obligations_broken.append(("model/driver build: " + "; ".join(C.failing_decls(out_drv)[:5]), out_drv[-1500:]))
     ok_p, out_p = C.lake(["JsonC.Props." + prop])
     thms, ax = [], {}
     changed = C.facts_changed()
-    if ok_drv and not changed:
-        C.cache_ref_driver(P.COMPONENT)
+    root = C.LEAN
+    if (not ok_p or not ok_drv) and changed:
+        # /repo's regenerated facts differ from the reference facts (lean/ref) and the model rebuilt from them is not
+        # covered by the theorems.  The theorems are about the model built from the reference facts: re-check them
+        # there (build/reflake) and compare the implementation with THAT model - a hand-written model tied to the code
+        # by the correspondence run.  If the implementation still corresponds to it, the property is shown to hold as
+        # on the unchanged tree (a statement moved out of an extractor's sight is not a change of behaviour); if it
+        # does not, the divergence is the violation.
+        global MODEL_EXE
+        why = ("model/driver build: " + "; ".join(C.failing_decls(out_drv)[:5])) if not ok_drv else \
+              ("theorem(s) no longer check: " + "; ".join(C.failing_decls(out_p)[:8]))
+        fact_lines = [l for _, ls in changed for l in ls if "thrAccessSites" not in l]
+        log("FACTS CHANGED (%s): the model regenerated from the current source is not covered by the theorems [%s];\n"
+            "falling back to the reference model (build/reflake)\n%s" % ("; ".join(n for n, _ in changed), why, "\n".join(fact_lines)[:3000]))
+        ok_drv, out_drv = C.lake_ref(["driver-" + P.COMPONENT])
+        ok_p, out_p = C.lake_ref(["JsonC.Props." + prop])
+        if ok_drv:
+            MODEL_EXE = C.ref_driver_path(P.COMPONENT)
+        root = C.REFLAKE
+        fallback = {"facts_changed": fact_lines[:60], "regenerated_model": why}
+        notes.append("extracted facts differ from the reference facts and the regenerated model is not covered by the theorems (%s): "
+                     "theorems re-checked for, and implementation compared with, the reference model; search widened to %d seeds"
+                     % (why, 3))
+    else:
+        fallback = None
+    if not ok_drv:
+        obligations_broken.append(("model/driver build: " + "; ".join(C.failing_decls(out_drv)[:5]), out_drv[-1500:]))
     if not ok_p:
         obligations_broken.append(("theorem(s) no longer check: " + "; ".join(C.failing_decls(out_p)[:8]), out_p[-2500:]))
-    if (not ok_p or not ok_drv) and changed:
-        # The theorems are about the model built from the reference facts (lean/ref): that model, not one rebuilt
-        # from facts no theorem covers, is what the implementation is compared with in the search for a failing input.
-        global MODEL_EXE
-        try:
-            MODEL_EXE = C.ref_driver(P.COMPONENT)
-            ok_drv = True
-            notes.append("extracted facts differ from the reference facts and a theorem no longer checks: the search "
-                         "compared the implementation with the model built from the reference facts")
-            obligations_broken.append(("extracted facts changed: " + "; ".join(n for n, _ in changed),
-                                       "\n".join(l for _, ls in changed for l in ls)[:3000]))
-        except C.BuildError as e:
-            log(str(e))
     else:
-        hits = C.audit_sources(prop)
-        if hits:
-            obligations_broken.append(("source audit", "\n".join(hits[:20])))
-        ax, problems = C.audit_axioms(prop)
-        thms = sorted(ax)
-        if problems:
-            obligations_broken.append(("axiom audit", "\n".join(problems[:20])))
-        if tier == "thorough" and getattr(P, "LEANCHECKER", True):
-            r = C.sh(["lake", "env", "leanchecker", "JsonC.Props." + prop], cwd=C.LEAN)
-            if r.returncode != 0:
-                obligations_broken.append(("leanchecker", r.stdout[-1500:]))
-            else:
-                notes.append("leanchecker re-checked JsonC.Props." + prop)
+        with C.lean_root(root):
+            hits = C.audit_sources(prop)
+            if hits:
+                obligations_broken.append(("source audit", "\n".join(hits[:20])))
+            ax, problems = C.audit_axioms(prop)
+            thms = sorted(ax)
+            if problems:
+                obligations_broken.append(("axiom audit", "\n".join(problems[:20])))
+            if tier == "thorough" and getattr(P, "LEANCHECKER", True):
+                r = C.sh(["lake", "env", "leanchecker", "JsonC.Props." + prop], cwd=root)
+                if r.returncode != 0:
+                    obligations_broken.append(("leanchecker", r.stdout[-1500:]))
+                else:
+                    notes.append("leanchecker re-checked JsonC.Props." + prop)
 
     # ---- 3: implementation from the current working tree
     cases, stats = [], {}
@@ -356,6 +367,13 @@ def main():
     for i, c in enumerate(gen_cases):
         c.setdefault("id", "g%d" % i)
     cases += gen_cases
+    if fallback is not None and not getattr(P, "NO_WIDEN", False):
+        # the code changed in a place the model depends on: look harder before concluding
+        for extra in (1, 2):
+            more = list(P.gen(C.Rng((seed + 7919 * extra) * 1000003 + (17 if tier == "thorough" else 0)), tier))
+            for i, c in enumerate(more):
+                c["id"] = "x%d_%s" % (extra, c.get("id", "g%d" % i))
+            cases += more
     if ok_drv:
         # run in slices so that a huge tier does not hold everything in one process
         SL = getattr(P, "SLICE", 400)
@@ -431,6 +449,10 @@ def main():
         for o in obligations_broken:
             log("OBLIGATION BROKEN: %s\n%s" % o)
 
+    if fallback is not None and not violations:
+        print("NOTE property=%s the facts extracted from the current source differ from the reference facts (%s); the theorems were "
+              "re-checked for the reference model and the implementation corresponds to it on all %d cases explored"
+              % (prop, "; ".join(l.split(":=")[0].replace("+ def ", "").replace("- def ", "").strip() for l in fallback["facts_changed"][:6] if l.startswith("+")), evals))
     for t, f in sorted(known_seen.items()):
         print("KNOWN-FINDING: property=%s %s %s" % (prop, f["id"], f["description"]))
     for v in violations:
@@ -455,6 +477,8 @@ def main():
         "known_findings_seen": sorted(known_seen),
         "notes": notes,
     }
+    if fallback is not None:
+        coverage["reference_model_fallback"] = fallback
     if discharged == 0:
         # schema: a proof-level record needs discharged >= 1; a run whose obligations broke reports them separately
         coverage["obligations_broken"] = [o[0] for o in obligations_broken]
